@@ -10,6 +10,7 @@
 //     all 2^16 bitmaps can be enumerated.
 //   - "bls" (thorough tier only): the real herumi BLS low-level signer and key generator with
 //     fixed private keys, group sizes 1..8.
+//
 // The nodes coordinator is a stub that returns the consensus group.
 //
 // Space: group size n in 1..16; every bitmap byte string of the expected length ceil(n/8)
@@ -157,8 +158,8 @@ type world struct {
 	scheme   string
 	n        int
 	fallback bool // FallbackHeaderValidator.ShouldApplyFallbackValidation returns true
-	hsv    *headerCheck.HeaderSigVerifier
-	aggs   [][]byte // aggregate of the shares of exactly the members in mask (index = mask); nil for mask 0
+	hsv      *headerCheck.HeaderSigVerifier
+	aggs     [][]byte // aggregate of the shares of exactly the members in mask (index = mask); nil for mask 0
 }
 
 func baseHeader(n int) *block.Header {
@@ -345,10 +346,31 @@ func (cl *collector) add(sig string, rank [4]int, mk func() (map[string]interfac
 func threshold(n int) int { return n*2/3 + 1 }
 
 // check runs one case and judges it. variant names the bitmap family for counters.
-func check(c *mc.Ctx, cl *collector, w *world, bitmap []byte, signers uint32, variant string) {
+// acc batches the per-case bookkeeping of one parallel work item (the engine's counters take
+// a global lock); flush publishes it.
+type acc struct {
+	evals, accepted int64
+	outcomes        map[string]struct{}
+	lastNT          string
+}
+
+func (a *acc) flush(c *mc.Ctx) {
+	c.Eval(a.evals)
+	if a.accepted > 0 {
+		c.Count("accepted", a.accepted)
+	}
+	for o := range a.outcomes {
+		c.Outcome(o)
+	}
+}
+
+func check(c *mc.Ctx, a *acc, cl *collector, w *world, bitmap []byte, signers uint32, variant string) {
 	n := w.n
 	err := w.run(bitmap, signers)
-	c.Eval(1)
+	a.evals++
+	if a.outcomes == nil {
+		a.outcomes = map[string]struct{}{}
+	}
 	expLen := (n + 7) / 8
 	padding := 0 // bits set at positions >= n
 	selected := uint32(0)
@@ -362,14 +384,17 @@ func check(c *mc.Ctx, cl *collector, w *world, bitmap []byte, signers uint32, va
 		}
 	}
 	if err == nil {
-		c.Outcome("accepted")
-		c.Count("accepted", 1)
+		a.outcomes["accepted"] = struct{}{}
+		a.accepted++
 	} else {
-		c.Outcome(err.Error())
+		a.outcomes[err.Error()] = struct{}{}
 	}
 	if padding > 0 && len(bitmap) == expLen {
 		// non-trivial: right-length bitmap with >= 1 padding bit set
-		c.Nontrivial(fmt.Sprint(w.scheme, w.fallback, n, bitmap))
+		if k := fmt.Sprint(w.scheme, w.fallback, n, bitmap); k != a.lastNT {
+			a.lastNT = k
+			c.Nontrivial(k)
+		}
 		if err == nil && c.WantSample() {
 			c.Sample(map[string]interface{}{"scheme": w.scheme, "group_size": n, "bitmap": bitsStr(bitmap), "contributors": bits.OnesCount32(signers), "result": "accepted"})
 		}
@@ -432,49 +457,65 @@ func enumerate(c *mc.Ctx, cl *collector, w *world) {
 	}
 	// right-length bitmaps
 	mc.Par(nb, func(v int) {
+		a := &acc{}
+		defer a.flush(c)
 		bm := toBytes(v, L)
 		sel := uint32(v) & full
 		if n <= 8 {
 			for s := uint32(0); s <= full; s++ {
-				check(c, cl, w, bm, s, "expected-length")
+				check(c, a, cl, w, bm, s, "expected-length")
 			}
 			return
 		}
-		check(c, cl, w, bm, sel, "expected-length")
+		check(c, a, cl, w, bm, sel, "expected-length")
 		if c.Quick() {
 			if low := sel &^ 1; low != 0 {
-				check(c, cl, w, bm, sel&^(low&-low), "expected-length")
+				check(c, a, cl, w, bm, sel&^(low&-low), "expected-length")
 			}
 			if sel != full {
-				check(c, cl, w, bm, full, "expected-length")
+				check(c, a, cl, w, bm, full, "expected-length")
 			}
 			return
 		}
 		for i := 0; i < n; i++ {
-			check(c, cl, w, bm, sel^(1<<uint(i)), "expected-length")
+			check(c, a, cl, w, bm, sel^(1<<uint(i)), "expected-length")
 		}
 	})
 	if w.scheme != "set" || w.fallback {
 		return
 	}
 	// wrong lengths, contributors = selected members
-	check(c, cl, w, nil, full, "empty")
-	check(c, cl, w, []byte{}, full, "empty")
+	a := &acc{}
+	check(c, a, cl, w, nil, full, "empty")
+	check(c, a, cl, w, []byte{}, full, "empty")
+	a.flush(c)
 	if L == 2 {
 		mc.Par(256, func(v int) {
+			a := &acc{}
+			defer a.flush(c)
 			bm := toBytes(v, 1)
-			check(c, cl, w, bm, uint32(v)&full, "one-byte-short")
-			check(c, cl, w, bm, full, "one-byte-short")
+			check(c, a, cl, w, bm, uint32(v)&full, "one-byte-short")
+			check(c, a, cl, w, bm, full, "one-byte-short")
 		})
 		for _, last := range []int{0x00, 0x01, 0x80, 0xff} {
 			last := last
-			mc.Par(nb, func(v int) {
-				check(c, cl, w, toBytes(v|last<<16, 3), uint32(v)&full, "one-byte-long")
+			mc.Par(nb/256, func(hi int) {
+				a := &acc{}
+				defer a.flush(c)
+				for lo := 0; lo < 256; lo++ {
+					v := hi<<8 | lo
+					check(c, a, cl, w, toBytes(v|last<<16, 3), uint32(v)&full, "one-byte-long")
+				}
 			})
 		}
 	} else {
-		mc.Par(1<<16, func(v int) {
-			check(c, cl, w, toBytes(v, 2), uint32(v)&full, "one-byte-long")
+		mc.Par(1<<8, func(hi int) {
+			a := &acc{}
+			defer a.flush(c)
+			for lo := 0; lo < 256; lo++ {
+				v := hi<<8 | lo
+				check(c, a, cl, w, toBytes(v, 2), uint32(v)&full, "one-byte-long")
+			}
 		})
 	}
 }
@@ -511,7 +552,9 @@ func main() {
 			}
 			bm, _ := hex.DecodeString(k.Bitmap)
 			w := buildWorld(c, k.Scheme, k.N, k.Fallback)
-			check(c, cl, w, bm, k.Signers, "replay")
+			a := &acc{}
+			check(c, a, cl, w, bm, k.Signers, "replay")
+			a.flush(c)
 		} else {
 			for n := 1; n <= maxN; n++ {
 				enumerate(c, cl, buildWorld(c, "set", n, false))
